@@ -178,9 +178,23 @@ func checkC08(tier, replay string) int {
 			fmt.Println(err)
 			return 2
 		}
-		_, p := engine.FromJSON(f.Case.Policy)
 		var children, events, kills int64
-		c08One(ctx, a, c08Job{"replay", p, f.Case.Flags, f.Case.NNP, f.Case.Unpriv}, 100, &children, &events, &kills)
+		var g struct {
+			Case struct {
+				Held  *engine.PolJSON `json:"held_policy"`
+				Other *engine.PolJSON `json:"other_policy"`
+				Sync  bool            `json:"other_thread_sync"`
+			} `json:"case"`
+		}
+		if readJSON(replay, &g) == nil && g.Case.Held != nil && g.Case.Other != nil {
+			// an interleaved pair of loads
+			_, ph := engine.FromJSON(*g.Case.Held)
+			_, po := engine.FromJSON(*g.Case.Other)
+			c08ConcOne(ctx, a, ph, po, g.Case.Sync, "replay", &children, &events)
+		} else {
+			_, p := engine.FromJSON(f.Case.Policy)
+			c08One(ctx, a, c08Job{"replay", p, f.Case.Flags, f.Case.NNP, f.Case.Unpriv}, 100, &children, &events, &kills)
+		}
 		if ctx.NumViolations() > 0 {
 			fmt.Println("REPRODUCED")
 			return 1
@@ -195,6 +209,8 @@ func checkC08(tier, replay string) int {
 		maxKill = 6
 	}
 	parallelFor(len(jobs), func(i int) { c08One(ctx, a, jobs[i], maxKill, &children, &events, &kills) })
+	conc := c08Concurrent(ctx, a, jobs, tier, &children, &events)
+	ctx.Cov["loads_held_at_the_seam_while_another_thread_loads"] = conc
 	ctx.Cov["states"] = len(jobs)
 	ctx.Cov["transitions"] = events
 	ctx.Cov["traces_validated_against_impl"] = events
@@ -203,7 +219,7 @@ func checkC08(tier, replay string) int {
 	ctx.Cov["loads_after_a_foreign_load_on_another_thread"] = atomic.LoadInt64(&c08Pre)
 	ctx.Cov["kill_process_events_observed_as_SIGSYS"] = kills
 	ctx.Cov["policies_loaded"] = len(jobs)
-	ctx.Cov["rule"] = "states = policies of probe scope S8 over {getpgrp,getppid,getuid,geteuid,getgid,getegid} (names-only with 1-2 groups and 4 actions; single conditions over 8 ops x 6 argument registers x boundary operands; AND lists, OR lists, conditional entries in two groups, kill_process behind a condition; with and without the whole remaining table as a >255-instruction allow group), each loaded by the real LoadFilter in a fresh child with flags in {0,tsync} and no_new_privs on/off, as root and as uid 65534 (quick tier: one combination per policy in rotation; thorough tier: all eight for every policy), about half of the loads with a policy value that was assembled and dumped in an earlier shape (one group less, another default action) before being completed, a third after another thread has loaded a longer unrelated filter, a third followed by a load of the same filter on the second thread (which then must be filtered too); transitions = probe events: every probe syscall x every cell of the exact partition of the argument registers, issued with RawSyscall6 from the loading thread and from a second thread; the reference decision (model) is compared with errno / SIGSYS observed on the real kernel, and the sock_fprog captured at the seam hook with the program compiled in the parent"
+	ctx.Cov["rule"] = "states = policies of probe scope S8 over {getpgrp,getppid,getuid,geteuid,getgid,getegid} (names-only with 1-2 groups and 4 actions; single conditions over 8 ops x 6 argument registers x boundary operands; AND lists, OR lists, conditional entries in two groups, kill_process behind a condition; with and without the whole remaining table as a >255-instruction allow group), each loaded by the real LoadFilter in a fresh child with flags in {0,tsync} and no_new_privs on/off, as root and as uid 65534 (quick tier: one combination per policy in rotation; thorough tier: all eight for every policy), about half of the loads with a policy value that was assembled and dumped in an earlier shape (one group less, another default action) before being completed, a third after another thread has loaded a longer unrelated filter, a third followed by a load of the same filter on the second thread (which then must be filtered too); plus interleaved loads: thread T0's LoadFilter of a probe policy is held at the seccomp(2) seam (no_new_privs set, sock_fprog built) while thread T1 performs a complete LoadFilter of another policy (without and with thread-sync), then released - the sock_fprog must be unchanged on release, T0 must decide by its own policy (combined with T1's when that was thread-synced: the kernel takes the most severe action) and T1 by its own; transitions = probe events: every probe syscall x every cell of the exact partition of the argument registers, issued with RawSyscall6 from the loading thread and from a second thread; the reference decision (model) is compared with errno / SIGSYS observed on the real kernel, and the sock_fprog captured at the seam hook with the program compiled in the parent"
 	ctx.Assumptions = []string{"probe syscalls ignore their arguments and always succeed when allowed", "refsem.Decide is the model; the kernel is the implementation", "only host architecture (x86_64) events can be issued"}
 	return ctx.Finish()
 }
@@ -381,4 +397,198 @@ func c08One(ctx *evid.Ctx, a *refsem.Arch, j c08Job, maxKill int, children, even
 		}
 	}
 	ctx.Sample(map[string]any{"policy": pj, "flags": j.flags, "nnp": j.nnp, "probe_events": len(evs), "kill_events": len(killers)})
+}
+
+// c08Concurrent: schedules of two LoadFilter calls at the granularity of the seccomp(2) seam. T0 is stopped when it is about
+// to enter seccomp(2); T1 then loads another policy completely; T0 continues. (The opposite order, T1's load between two
+// complete steps of T0, is the sequential case covered above and by C09.)
+func c08Concurrent(ctx *evid.Ctx, a *refsem.Arch, jobs []c08Job, tier string, children, events *int64) int64 {
+	P := probeNames
+	others := []*seccomp.Policy{
+		{DefaultAction: seccomp.ActionAllow, Syscalls: []seccomp.SyscallGroup{{Action: seccomp.ActionErrno, Names: []string{P[0], P[4]}}}},
+		{DefaultAction: seccomp.ActionAllow, Syscalls: []seccomp.SyscallGroup{{Action: seccomp.ActionErrno, NamesWithCondtions: []seccomp.NameWithConditions{{Name: P[1], Conditions: seccomp.ArgumentConditions{{Argument: 0, Operation: seccomp.GreaterOrEqual, Value: 0}}}, {Name: P[3], Conditions: seccomp.ArgumentConditions{{Argument: 2, Operation: seccomp.LessThan, Value: 1 << 40}}}}}}},
+	}
+	step := 6
+	if tier == "thorough" {
+		step = 1
+	}
+	type cj struct {
+		j      c08Job
+		other  int
+		tsyncB bool
+		swap   bool // the simple policy is the one that is held
+	}
+	var cjs []cj
+	seenPol := map[*seccomp.Policy]bool{}
+	n := 0
+	for _, j := range jobs {
+		if seenPol[j.pol] {
+			continue
+		}
+		seenPol[j.pol] = true
+		n++
+		if n%step != 0 {
+			continue
+		}
+		for o := range others {
+			for _, ts := range []bool{false, true} {
+				for _, sw := range []bool{false, true} {
+					if tier != "thorough" && (n/step+o+b2i(ts)+b2i(sw))%4 != 0 {
+						continue
+					}
+					cjs = append(cjs, cj{j, o, ts, sw})
+				}
+			}
+		}
+	}
+	var done int64
+	parallelFor(len(cjs), func(i int) {
+		c := cjs[i]
+		polHeld, polOther := c.j.pol, others[c.other]
+		if c.swap {
+			polHeld, polOther = polOther, polHeld
+		}
+		if c08ConcOne(ctx, a, polHeld, polOther, c.tsyncB, c.j.label, children, events) {
+			atomic.AddInt64(&done, 1)
+		}
+	})
+	return done
+}
+
+func c08ConcOne(ctx *evid.Ctx, a *refsem.Arch, polHeld, polOther *seccomp.Policy, tsyncB bool, label string, children, events *int64) bool {
+	combine := func(x, y uint32) uint32 { // the kernel keeps the action with the lowest signed action value
+		if int32(x&0xffff0000) <= int32(y&0xffff0000) {
+			return x
+		}
+		return y
+	}
+	type cT struct {
+		tsyncB bool
+		j      struct{ label string }
+	}
+	c := cT{tsyncB: tsyncB}
+	c.j.label = label
+	{
+		hj, oj := engine.ToJSON(a, polHeld, false), engine.ToJSON(a, polOther, false)
+		rep := map[string]any{"held_policy": hj, "other_policy": oj, "other_thread_sync": c.tsyncB, "scope": c.j.label}
+		compile := func(p *seccomp.Policy) []cbpf.Insn {
+			insts, err, pan := engine.Compile(a, p, false)
+			if err != nil || pan != nil {
+				return nil
+			}
+			prog, _ := engine.Raw(insts)
+			return prog
+		}
+		progH, progO := compile(polHeld), compile(polOther)
+		if progH == nil || progO == nil {
+			return false
+		}
+		evs, _ := c08Events(a, polHeld, progH, 4000)
+		evs2, _ := c08Events(a, polOther, progO, 4000)
+		evs = append(evs, evs2...)
+		if evs == nil {
+			return false
+		}
+		var fl2 uint32
+		if c.tsyncB {
+			fl2 = 1
+		}
+		// decisions: T0 (held) ends up with its own filter, plus the other one if that was thread-synced onto it; T1 has the other one only
+		decide0 := func(e cbpf.Event) uint32 {
+			d := refsem.Decide(a, polHeld, e)
+			if c.tsyncB {
+				d = combine(d, refsem.Decide(a, polOther, e))
+			}
+			return d
+		}
+		decide1 := func(e cbpf.Event) uint32 { return refsem.Decide(a, polOther, e) }
+		var send []probeEv
+		var sent []cbpf.Event
+		for _, e := range evs {
+			d0, d1 := decide0(e), decide1(e)
+			if d0 == refsem.RetKillProcess || d1 == refsem.RetKillProcess {
+				continue
+			}
+			send = append(send, probeEv{Nr: e.Nr, Args: e.Args})
+			sent = append(sent, e)
+		}
+		sc := &histScript{Threads: 3}
+		sc.Ops = append(sc.Ops, histOp{Op: "loadpair", T: 0, Policy: &hj, Flags: 0, NNP: true, T2: 1, Policy2: &oj, Flags2: fl2, NNP2: true})
+		sc.Ops = append(sc.Ops, histOp{Op: "probe", T: 1, Events: send})
+		sc.Ops = append(sc.Ops, histOp{Op: "probe", T: 0, Events: send})
+		sc.Ops = append(sc.Ops, histOp{Op: "probe", T: 2, Events: send})
+		hr := runHist(sc, false)
+		atomic.AddInt64(children, 1)
+		if hr.TimedOut || len(hr.Results) < 4 {
+			ctx.Flaky()
+			ctx.Capped("a C08 child (interleaved loads) did not complete")
+			fmt.Printf("HARNESS-ERROR C08 interleaved child incomplete: %d results exit=%d sig=%v %.200s\n", len(hr.Results), hr.ExitCode, hr.Signal, hr.Stderr)
+			return false
+		}
+		lp := hr.Results[0]
+		if !lp.Reached {
+			ctx.Capped("the held load never reached the seam")
+			return false
+		}
+		if lp.Err != nil || lp.Err2 != nil {
+			e1, e2 := "<nil>", "<nil>"
+			if lp.Err != nil {
+				e1 = *lp.Err
+			}
+			if lp.Err2 != nil {
+				e2 = *lp.Err2
+			}
+			ctx.Violation("C08:interleaved:load-failed:"+c.j.label, fmt.Sprintf("two valid loads on two threads, one held at the seam while the other runs: held load: %s, other load: %s", e1, e2), rep)
+			return false
+		}
+		for _, sm := range lp.Seam {
+			if sm.Op != 1 || sm.Len <= 0 {
+				continue
+			}
+			want, wantLen, who := hashInsns(progO), len(progO), "other"
+			if sm.Tid == lp.Tid {
+				want, wantLen, who = hashInsns(progH), len(progH), "held"
+			}
+			if sm.Hash != want || sm.Len != wantLen {
+				ctx.Violation("C08:interleaved:installed-differs:"+who+":"+c.j.label, fmt.Sprintf("the %s load handed %d instructions (digest %s) to seccomp(2); its policy compiles to %d (%s)", who, sm.Len, sm.Hash, wantLen, want), rep)
+			}
+			if sm.Held && (sm.HeldHash != want || sm.HeldLen != wantLen) {
+				ctx.Violation("C08:interleaved:program-changed-while-waiting:"+c.j.label, fmt.Sprintf("the sock_fprog of the held load changed while another thread loaded its filter: %d instructions (%s) on release, %d (%s) expected", sm.HeldLen, sm.HeldHash, wantLen, want), rep)
+			}
+		}
+		chk := func(res histResult, who string, decide func(cbpf.Event) uint32) {
+			if len(res.Errnos) != len(sent) {
+				ctx.Violation("C08:interleaved:thread-died:"+who+":"+c.j.label, fmt.Sprintf("%s issued %d of %d probes (child signal %v)", who, len(res.Errnos), len(sent), hr.Signal), rep)
+				return
+			}
+			for k, en := range res.Errnos {
+				want := 0
+				if d := decide(sent[k]); d == refsem.RetErrno|refsem.EPERM {
+					want = 1
+				}
+				atomic.AddInt64(events, 1)
+				if en != want {
+					ctx.Violation(fmt.Sprintf("C08:interleaved:decision:%s:%s", who, c.j.label), fmt.Sprintf("%s: kernel answered errno %d, expected %d for nr %d args %x", who, en, want, sent[k].Nr, sent[k].Args), map[string]any{"held_policy": hj, "other_policy": oj, "other_thread_sync": c.tsyncB, "event": sent[k]})
+					return
+				}
+			}
+		}
+		chk(hr.Results[1], "other-thread", decide1)
+		chk(hr.Results[2], "held-thread", decide0)
+		// a third thread that loaded nothing: filtered only through thread-sync
+		chk(hr.Results[3], "bystander", func(e cbpf.Event) uint32 {
+			if c.tsyncB {
+				return decide1(e)
+			}
+			return refsem.RetAllow
+		})
+	}
+	return true
+}
+
+func b2i(b bool) int {
+	if b {
+		return 1
+	}
+	return 0
 }
